@@ -201,6 +201,28 @@ def _one_tie(unit: str, t: dict, repo: str) -> dict:
         shutil.rmtree(tmpd, ignore_errors=True)
 
 
+def _prim_check(seed: int, n: int) -> tuple[str | None, int]:
+    """PyPrims.v against CPython: random scripts of the built-ins as Coq Examples (see primcheck.py)."""
+    import shutil
+    import tempfile
+
+    import primcheck
+
+    cases = primcheck.gen_cases(random.Random(seed * 31 + 7), n)
+    tmpd = tempfile.mkdtemp(prefix="verif_prim_")
+    try:
+        (Path(tmpd) / "PrimCases.v").write_text(primcheck.coq_file(cases))
+        rc, out = sh(f"cd {VERIF}/coq && timeout 600 coqc -Q tie PJ.Tie -Q {tmpd} PJ.Pc {tmpd}/PrimCases.v", timeout=700)
+    finally:
+        shutil.rmtree(tmpd, ignore_errors=True)
+    if rc == 0:
+        return None, len(cases)
+    m = re.search(r"line (\d+)", out)
+    bad = cases[(int(m.group(1)) - 3) // 2] if m and 0 <= (int(m.group(1)) - 3) // 2 < len(cases) else "?"
+    return (f"coq/tie/PyPrims.v does not describe CPython: `{bad[:300]}` is what CPython does and not what PyPrims computes "
+            f"(the source ties rest on it): {out[-200:]}"), len(cases)
+
+
 def source_ties(ctx, po: dict, pid: str) -> list[str]:
     """Regenerate and re-prove every tie whose source files the property is anchored in (in parallel).
     Returns the units that no longer check."""
@@ -212,8 +234,15 @@ def source_ties(ctx, po: dict, pid: str) -> list[str]:
     broken_units = []
     if not units:
         return broken_units
-    with ThreadPoolExecutor(max_workers=len(units)) as ex:
+    with ThreadPoolExecutor(max_workers=len(units) + 1) as ex:
+        prim = ex.submit(_prim_check, ctx.seed, 60 if ctx.quick else 400)
         results = list(ex.map(lambda ut: _one_tie(ut[0], ut[1], repo), units))
+        prim_bad, prim_n = prim.result()
+    if prim_bad:
+        po["broken"].append(prim_bad)
+    else:
+        ctx.report.notes.append(f"coq/tie/PyPrims.v (the meaning the source ties give to OrderedDict, deque, str.rpartition, set) agreed with CPython on "
+                                f"{prim_n} random operations evaluated by vm_compute inside coqc")
     for (unit, t), res in zip(units, results):
         po["obligations"] += len(t["theorems"])
         if res["broken"]:
